@@ -182,7 +182,9 @@ class JSONHandler(BaseHandler):
             raise errors.MediaNotFoundError('JSON')
         try:
             return self._loads(data.decode())
-        except ValueError as err:
+        except (ValueError, RecursionError) as err:
+            # NOTE: A document nested too deeply for the parser is a client
+            #   error as well, not an internal server error.
             raise errors.MediaMalformedError('JSON') from err
 
     def deserialize(
